@@ -9,7 +9,7 @@ CONSTANTS K, MaxP, MaxN, EasyPairs, Cuts
 EasyQuick    == {<<0, 0>>, <<2, 3>>, <<1, 0>>}
 EasyThorough == {<<0, 0>>, <<2, 3>>, <<1, 0>>, <<0, 2>>, <<3, 2>>}
 CutsQuick    == {<<0, 1>>, <<1, 5>>, <<1, 4>>, <<1, 3>>, <<1, 2>>, <<2, 3>>, <<4, 5>>, <<1, 1>>}
-CutsThorough == CutsQuick \cup {<<1, 6>>, <<2, 5>>, <<3, 5>>, <<3, 4>>, <<1, 12>>, <<5, 6>>, <<1, 7>>}
+CutsThorough == CutsQuick \cup {<<1, 6>>, <<3, 5>>, <<1, 7>>}
 
 V == 0..(K - 1)
 Objects ==
